@@ -54,7 +54,7 @@ FAMILIES = {
         rule='2-3 buses, first use of a bus from main code / from inside a handler / inside an awaited child, long handlers; '
              'non-trivial: two buses each start a handler'),
     'C07': dict(
-        gens=[('core', dict(nb=(2, 3), p_forward=0.45, p_wild=0.4), 0.32), ('fwdfail', dict(), 0.08),
+        gens=[('core', dict(nb=(2, 3), p_forward=0.45, p_wild=0.4), 0.27), ('fwdfail', dict(), 0.08), ('fanin', dict(), 0.05),
               ('core', dict(nb=(2, 4), p_forward=0.5, p_wild=0.5, p_redispatch=0.25, nh=(2, 8)), 0.2),
               ('core', dict(nb=(3, 4), p_forward=0.6, p_wild=0.6, nh=(3, 8), p_samenames=1.0), 0.1),
               ('core', dict(nb=(2, 3), p_forward=0.4, p_wild=0.5, p_timeout=0.6, nh=(3, 8), proglen=(1, 4)), 0.22), ('deepfwd', dict(), 0.08)],
@@ -169,7 +169,7 @@ def gen_backlog(rng, p_waitidle=0.0, **_):
     return sc
 
 
-GENS = {'core': gen.gen_core, 'backlog': gen_backlog, 'chain': gen.gen_chain, 'stop': gen.gen_stop, 'idle': gen.gen_idle, 'deep': gen.gen_deep, 'sibling': gen.gen_sibling, 'parraise': gen.gen_parraise, 'deepfwd': gen.gen_deepfwd, 'parshare': gen.gen_parshare, 'partimeout': gen.gen_partimeout, 'cycle': gen.gen_cycle, 'errnest': gen.gen_errnest, 'fwdfail': gen.gen_fwdfail, 'evictgap': gen.gen_evictgap, 'expects': gen.gen_expects, 'outbox': gen.gen_outbox, 'retrychain': gen.gen_retrychain}
+GENS = {'core': gen.gen_core, 'backlog': gen_backlog, 'chain': gen.gen_chain, 'stop': gen.gen_stop, 'idle': gen.gen_idle, 'deep': gen.gen_deep, 'sibling': gen.gen_sibling, 'parraise': gen.gen_parraise, 'deepfwd': gen.gen_deepfwd, 'parshare': gen.gen_parshare, 'partimeout': gen.gen_partimeout, 'cycle': gen.gen_cycle, 'errnest': gen.gen_errnest, 'fwdfail': gen.gen_fwdfail, 'evictgap': gen.gen_evictgap, 'expects': gen.gen_expects, 'outbox': gen.gen_outbox, 'retrychain': gen.gen_retrychain, 'fanin': gen.gen_fanin}
 
 
 def bus_classes(rng, sc):
